@@ -1,6 +1,7 @@
 import StraxModel.Driver.Parse
 import StraxModel.Model.Net
 import StraxModel.Model.PostOffice
+import StraxModel.Lemmas.NetOutcome
 /-
   Driver ops of property C06.
 
@@ -14,6 +15,15 @@ import StraxModel.Model.PostOffice
       mailbox = `key|lazy|max_messages|can_drive bits|thread names joined by ,`   (creation order of the dict)
       thread  = `name<sub+sub…>{flow_freely}[outputs]` with sub = `mailboxkey@subscriberIndex`; `outputs` = what a
                 `divide_outputs` reader sends into (threads in join order, `main` last)
+
+  `c06.run <allowLazy> <maxWorkers|-> <maxMessages> <targets> <loaders> <defs> <plugins> <savers> <fault> <consumer> <prio>`
+      the same description, run: every stage program is `genericProg` (read every dependency, emit; once more at the end),
+      fault     `-` | `plugin:<defIndex>:<i>` (raise in the i-th compute) | `load:<d>:<i>` | `save:<d>:<i>` | `close:<d>:0`
+      consumer  `d` (drain) | `f<k>` (give up after k chunks)
+      prio      thread names, highest priority first; the enabled thread that comes first always runs (fixed priorities)
+    answer: `ok <mailbox>;… # <thread>;… # out=<none|returned|raised[…]> end=<final|deadlock> tree=<0|1> steps=<n>`
+      mailbox = `key|closed killed|n_sent|have_read joined by .` ; thread = `name=ok|own[Injected[id]]|run`
+      tree = `TreeNet ∧ SinksListed` holds for `certOf (wire …)` (the hypothesis of the net-level theorems)
 
   `c06.po <op>;<op>;…`   (a script against one PostOffice; one answer token per op, then the final state)
       `P:<topics .>:<registered . or ->:<script>`  register_producer; script = `-` | instrs joined by `,`:
@@ -80,6 +90,90 @@ def wireOp (lazy mw mm targets loaders defs plugins savers : String) : Option St
                           savers := savers.map (fun (d, n) => (d, List.replicate n {})), targets := splitList targets "," }
   pure (showWire (wire c { allowLazy := allowLazy, maxWorkers := mw, maxMessages := mm } .drain))
 
+/-! ### c06.run: the net semantics under a fixed-priority schedule -/
+open Strax.Net in
+/-- insert `fail e` in front of the i-th `emit` -/
+def failBeforeEmit (e : Nat) : Nat → List SInstr → List SInstr
+  | _, [] => []
+  | 0, .emit :: r => .fail e :: .emit :: r
+  | i + 1, .emit :: r => .emit :: failBeforeEmit e i r
+  | i, x :: r => x :: failBeforeEmit e i r
+
+open Strax.Net in
+/-- always run the enabled thread that comes first in `prio` -/
+def runPrio (net : Net) (prio : List Nat) : Nat → NState → Nat → NState × Nat
+  | 0, s, n => (s, n)
+  | f + 1, s, n =>
+    match prio.find? (fun t => (step net s t).isSome) with
+    | none => (s, n)
+    | some t =>
+      match step net s t with
+      | some s' => runPrio net prio f s' (n + 1)
+      | none => (s, n)
+
+open Strax.Net in
+def showExcN : Exc → String
+  | .inj i => s!"Injected[{i}]"
+  | .alreadyClosed => "MailBoxAlreadyClosed"
+
+open Strax.Net in
+def showRun (net : Net) (s : NState) (steps : Nat) : String :=
+  let mbs := (net.mbs.zip s.mbs).map fun (sp, a) =>
+    let hr := a.subs.map fun sb => toString (Int.ofNat sb.next - 1)
+    s!"{sp.name}|{if a.closed then "1" else "0"}{if a.killed then "1" else "0"}|{a.nSent}|{".".intercalate hr}"
+  let ths := (net.threads.zip s.thr).map fun (th, ts) =>
+    let st := if !ts.prog.isEmpty then "run" else
+      match ts.exc with
+      | some (true, e) => s!"own[{showExcN e}]"
+      | _ => "ok"
+    s!"{th.name}={st}"
+  let out := match s.outcome with
+    | none => "none"
+    | some .returned => "returned"
+    | some (.raised e) => s!"raised[{showExcN e}]"
+  let c := certOf net
+  let tree := if decide (TreeNet net c ∧ SinksListed net c) then "1" else "0"
+  s!"ok {";".intercalate mbs} # {";".intercalate ths} # out={out} end={if s.allEnded then "final" else "deadlock"} tree={tree} steps={steps}"
+
+open Strax.Net in
+def runOp (lazy mw mm targets loaders defs plugins savers fault consumer prio : String) : Option String := do
+  let allowLazy ← parseBool lazy
+  let mw ← if mw == "-" then some none else mw.toNat?.map some
+  let mm ← mm.toNat?
+  let loaders ← (splitList loaders ",").mapM parseLoader
+  let defs ← (splitList defs ";").mapM parseDef
+  let plugins ← (splitList plugins ",").mapM parseKV
+  let savers ← (splitList savers ",").mapM parseKV
+  let f := fault.splitOn ":"
+  let (defs, loaders, saverFault) ← match f with
+    | ["-"] => some (defs, loaders, (none : Option (String × Option Nat)))
+    | ["plugin", k, i] => do
+      let k ← k.toNat?
+      let i ← i.toNat?
+      pure ((List.range defs.length).zip defs |>.map (fun (j, d) => if j == k then { d with prog := failBeforeEmit 7 i d.prog } else d),
+            loaders, none)
+    | ["load", d, i] => do
+      let i ← i.toNat?
+      pure (defs, loaders.map (fun (n, p) => if n == d then (n, failBeforeEmit 7 i p) else (n, p)), none)
+    | ["save", d, i] => do pure (defs, loaders, some (d, some (← i.toNat?)))
+    | ["close", d, _] => some (defs, loaders, some (d, none))
+    | _ => none
+  let saverDs := savers.map fun (d, n) =>
+    (d, (List.range n).map fun k =>
+      match saverFault with
+      | some (d', some i) => if d' == d && k == 0 then ({ failAt := some i, exc := 7 } : SaverD) else {}
+      | some (d', none) => if d' == d && k == 0 then ({ failClose := true, exc := 7 } : SaverD) else {}
+      | none => {})
+  let cons ← if consumer == "d" then some Consumer.drain
+    else if consumer.startsWith "f" then (consumer.drop 1).toString.toNat?.map (Consumer.failAt · 7) else none
+  let c : Components := { plugins := plugins, defs := defs, loaders := loaders, savers := saverDs, targets := splitList targets "," }
+  let net := wire c { allowLazy := allowLazy, maxWorkers := mw, maxMessages := mm } cons
+  let names := splitList prio ","
+  let listed := names.filterMap fun n => net.threads.findIdx? (fun t => t.name == n)
+  let rest := (List.range net.threads.length).filter fun t => !listed.contains t
+  let (s, steps) := runPrio net (listed ++ rest) 100000 (init net) 0
+  pure (showRun net s steps)
+
 /-! ### c06.po -/
 open Strax.PostOffice
 
@@ -91,6 +185,8 @@ def parsePInstr (s : String) : Option PInstr :=
 
 def showExc : Exc → String
   | .inj i => s!"Injected[{i}]"
+  | .alreadyClosed => "AlreadyClosed"
+  | .saveToClosed => "SaveToClosed"
   | e => e.kind
 
 def showRes : Res → String
@@ -170,6 +266,8 @@ open Strax
 def handleC06 : List String → Option String
   | ["c06.wire", lazy, mw, mm, targets, loaders, defs, plugins, savers] =>
     C06.wireOp lazy mw mm targets loaders defs plugins savers
+  | ["c06.run", lazy, mw, mm, targets, loaders, defs, plugins, savers, fault, consumer, prio] =>
+    C06.runOp lazy mw mm targets loaders defs plugins savers fault consumer prio
   | ["c06.po", ops] => C06.poRun (ops.splitOn ";")
   | _ => none
 
